@@ -345,20 +345,12 @@ def r5_inherits(ctx, prog):
 
 def r6_lookup(ctx, prog):
     r = Rule("C06.R6", "namespace dispatch of lookups; reference errors stay reachable",
-             "`does not depend on namespaces`; unresolved, subkey and cyclic references must be rejected", floor=6)
-    fn = ctx.ast.fn(PL, "get_value_at", impl_self="LocalesOrNamespaces")
-    t = flatp(show(fn.body)) if fn else ""
-    frags = {
-        "mismatch->None": "None,LocalesOrNamespaces::NameSpaces_|Some_,LocalesOrNamespaces::Locales_=>None",
-        "plain": "None,LocalesOrNamespaces::Localeslocales=>{locales.iter.find|locale|&locale.name==top_locale}",
-        "namespaced": "Sometarget_namespace,LocalesOrNamespaces::NameSpacesnamespaces=>{letnamespace=namespaces.iter.find|ns|&ns.key==target_namespace?;namespace.locales.iter.find|locale|&locale.name==top_locale}",
-        "path": "locale.get_value_at&path.path",
-    }
-    for k, frag in frags.items():
-        if has(t, frag):
-            r.inst("LocalesOrNamespaces::get_value_at#" + k, frag[:80])
-        else:
-            r.viol("R6:get_value_at#" + k, "lookup dispatch lost `%s`" % frag[:80], file=PL)
+             "`does not depend on namespaces` / `subkey paths`; unresolved, subkey and cyclic references must be rejected", floor=6)
+    from rules import fkeval, absint as _absint
+    try:
+        fkeval.check_lookup(ctx, r, "R6")
+    except _absint.Unknown as u:
+        r.viol("R6:get_value_at#undecided", "the lookup cannot be interpreted on the current code (%s): not decided on this tree (fail closed)" % str(u)[:300], file=PL)
     fn = ctx.ast.fn(PV, "parse_key_path", impl_self="ParsedValue")
     t = flatp(show(fn.body)) if fn else ""
     if has(t, "ifletSomenamespace,rest=path.split_once':'") and has(t, "forkeyinpath.split'.'{letkey=Key::newkey?;key_path.push_keykey;}"):
@@ -385,7 +377,13 @@ def run(ctx):
                 "run-time patterns the reference shows another branch than the key it refers to", only=r"do_match", floor=3)
     r0, ok, why = r0_substitution(ctx)
     import os
-    rest = [r2_naming(ctx), r3_locale_consistency(ctx, prog), r4_order(ctx, prog), r5_inherits(ctx, prog), r6_lookup(ctx, prog), r7]
+    # a number supplied as an argument becomes part of the surrounding text when the value is reduced: its text must be the one the
+    # variable would render for the same number (Display: the float 2.0 is `2`) - the Literal::join / Display clauses of C01.R3
+    from rules import c01
+    r8 = borrow(c01.r3_join(ctx), "C06.R8", "a numeric argument is spliced in with the text the variable would render",
+                "`each supplied argument replacing the variable of that name`: `$t(k, {\"x\": 2.0})` must read like `{{ x }}` rendered with x = 2.0; "
+                "joining the number into the text with another formatting (Debug: `2.0`) shows a different text", only=r"Literal", floor=2)
+    rest = [r2_naming(ctx), r3_locale_consistency(ctx, prog), r4_order(ctx, prog), r5_inherits(ctx, prog), r6_lookup(ctx, prog), r7, r8]
     if ok and not os.environ.get("VERIF_FORCE_FALLBACK"):
         return [r0] + rest
     if not ok and not r0.violations:
